@@ -1,5 +1,5 @@
 #!/usr/bin/env python3
-"""hand-made mutations of the anchored code (applied in the worktree on top of the two fixes, run, restored).
+"""hand-made mutations of the anchored code (applied in the worktree, run, restored).
 usage: python3 mutations.py [substring]      every mutation must be reported (exit 1) naming the mutated function"""
 import os
 import subprocess
@@ -92,33 +92,6 @@ MUT = [
 		c = *p++;""", 'atol', None),
     ('a-sign-applied-twice', A, 'return (long) (0 - total);', 'return (long) (0 - total) * -1;', 'atol', None),
     ('a-accumulates-in-int', A, 'unsigned long total;', 'unsigned int total;', 'atol', None),
-    ('l-lower-becomes-upper', B, 'if (compar(key, mid) <= 0) {', 'if (compar(key, mid) < 0) {', 'lower_bound', None),
-    ('u-left-not-advanced', B, '''		if (compar(key, mid) < 0) {
-			right = mid;
-		} else {
-			left = mid + size;
-		}
-	}
-	return right;
-}
-
-void *lower_bound''', '''		if (compar(key, mid) < 0) {
-			right = mid;
-		} else {
-			left = mid;
-		}
-	}
-	return right;
-}
-
-void *lower_bound''', 'upper_bound', None),
-    ('u-returns-left', B, '''	return right;
-}
-
-void *lower_bound''', '''	return left + size;
-}
-
-void *lower_bound''', 'upper_bound', None),
 ]
 
 
@@ -137,7 +110,7 @@ def main():
             continue
         try:
             open(p, 'w').write(src.replace(old, new))
-            r = subprocess.run([sys.executable, DRV, WT], capture_output=True, text=True, env=env)
+            r = subprocess.run(['timeout', '-s', 'KILL', '600', sys.executable, DRV, WT], capture_output=True, text=True, env=env)
         finally:
             open(p, 'w').write(src)
         fails = [l for l in r.stdout.split('\n') if l.startswith('FAIL ')]
